@@ -58,6 +58,46 @@ class CsvR:
         self.pos = 0
 
 
+class MemRows:
+    """csv.reader over a list of text lines: an iterator over the parsed rows"""
+
+    def __init__(self, rows):
+        self.rows = rows
+        self.pos = 0
+
+
+def render_text(fs, path) -> Optional[str]:
+    """The exact text csv.writer produced for the rows of an abstract file (cells are concrete, so
+    quoting of cells with the delimiter, quotes or line breaks is the real module's)."""
+    import csv as _csv
+    import io
+
+    rows = fs.files.get(path, [])
+    opts = dict(fs.__dict__.get("writer_opts", {}).get(path, {"delimiter": "\t", "lineterminator": "\n"}))
+    buf = io.StringIO()
+    try:
+        w = _csv.writer(buf, **{k: v for k, v in opts.items() if isinstance(v, (str, int))})
+        toks = fs.__dict__.setdefault("_sym_tokens", {})
+        for r in rows:
+            if r == ["<raw>"]:
+                return None
+            out = []
+            for c in r:
+                if isinstance(c, (str, int, float)) or c is None:
+                    out.append(c)
+                elif isinstance(c, Sym):
+                    # a symbolic number: its text has no delimiter, quote or line break
+                    tok = f"\u27eaS{len(toks) if repr(c) not in [repr(v) for v in toks.values()] else [k for k, v in toks.items() if repr(v) == repr(c)][0][2:-1]}\u27eb"
+                    toks.setdefault(tok, c)
+                    out.append(tok)
+                else:
+                    return None
+            w.writerow(out)
+    except Exception:
+        return None
+    return buf.getvalue()
+
+
 class CsvW:
     def __init__(self, h: FileH, opts: dict):
         self.h = h
@@ -393,6 +433,16 @@ class FSInterp(ResultInterp):
                 self.fslog("raw-write", o.path, repr(args)[:60])
                 fs.files.setdefault(o.path, []).append(["<raw>"])
                 return None
+            if name in ("read", "readlines") and not args and "r" in str(o.mode) and "b" not in str(o.mode):
+                self.fslog("raw-read", o.path)
+                txt = render_text(fs, o.path)
+                if txt is not None:
+                    fs.__dict__.setdefault("raw_reads", []).append((o.path, node, self.func.qual))
+                    if o.kwargs.get("newline", None) is None:
+                        txt = txt.replace("\r\n", "\n").replace("\r", "\n")  # universal newlines
+                    self.root.__dict__["_last_raw_handle"] = o
+                    return txt if name == "read" else txt.splitlines(keepends=True)
+                return Unknown("raw read")
             if name in ("read", "readlines", "readline"):
                 self.fslog("raw-read", o.path)
                 return Unknown("raw read")
@@ -404,6 +454,7 @@ class FSInterp(ResultInterp):
                     raise RaiseSignal("UnsupportedOperation", node)
                 self.fslog("append-row", o.h.path, row)
                 fs.files.setdefault(o.h.path, []).append(row)
+                fs.__dict__.setdefault("writer_opts", {})[o.h.path] = {k: v for k, v in o.opts.items() if isinstance(v, (str, int))}
                 return None
             if name == "writerows":
                 for r_ in args[0]:
@@ -457,6 +508,10 @@ class FSInterp(ResultInterp):
         return FileH(path, mode, kwargs)
 
     def iterate(self, it, node):
+        if isinstance(it, MemRows):
+            rest = it.rows[it.pos :]
+            it.pos = len(it.rows)
+            return rest
         if isinstance(it, CsvR):
             self.fslog("read-rows", it.h.path)
             rows = [list(r) for r in self.root.fs.files.get(it.h.path, [])]
@@ -468,6 +523,9 @@ class FSInterp(ResultInterp):
             # system are csv rows; a hand parser sees their unquoted text only)
             self.root.fs.__dict__.setdefault("raw_reads", []).append((it.path, node, self.func.qual))
             self.fslog("read-rows", it.path)
+            txt = render_text(self.root.fs, it.path)
+            if txt is not None:
+                return txt.splitlines(keepends=True)
             return ["\t".join(str(c) for c in r) + "\n" for r in self.root.fs.files.get(it.path, [])]
         return super().iterate(it, node)
 
@@ -480,6 +538,14 @@ class FSInterp(ResultInterp):
         return super().isinstance_hook(v, klass, node)
 
     def call_builtin(self, name, args, kwargs, node):
+        if name == "next" and 1 <= len(args) <= 2 and isinstance(args[0], MemRows):
+            rd = args[0]
+            if rd.pos < len(rd.rows):
+                rd.pos += 1
+                return list(rd.rows[rd.pos - 1])
+            if len(args) == 2:
+                return args[1]
+            raise RaiseSignal("StopIteration", node)
         if name == "next" and 1 <= len(args) <= 2 and isinstance(args[0], CsvR):
             rd = args[0]
             rows = self.root.fs.files.get(rd.h.path, [])
@@ -518,6 +584,17 @@ class FSInterp(ResultInterp):
             if isinstance(a, str):
                 return PathV(a)
             return Unknown("Path of abstract value")
+        if name == "csv.reader" and args and isinstance(args[0], (list, tuple)) and all(isinstance(x, str) for x in args[0]) and all(isinstance(v, (str, int)) for v in kwargs.values()):
+            import csv as _csv
+
+            h_ = self.root.__dict__.get("_last_raw_handle")
+            if h_ is not None:
+                self.root.csv_sites.append(("reader", dict(kwargs), node, self.func.qual, h_))
+            try:
+                toks = fs.__dict__.get("_sym_tokens", {})
+                return MemRows([[toks.get(c, c) for c in r] for r in _csv.reader(list(args[0]), **kwargs)])
+            except _csv.Error:
+                raise RaiseSignal("Error", node)
         if name == "csv.reader" and args and isinstance(args[0], FileH):
             self.root.csv_sites.append(("reader", dict(kwargs), node, self.func.qual, args[0]))
             return CsvR(args[0], kwargs)
